@@ -44,6 +44,9 @@ CONSTRAINTS = {
     "generator_args": '<start> ::= <n> "=" <d>\n<n> ::= "1" | "2"\n<d> ::= r"[0-9]+" := str(int(<n>) * 2)\n',
     "star_len": '<start> ::= <x>{1,3}\n<x> ::= "a" | "b"\nwhere len(*<start>.<x>) >= 2\nwhere |<start>.<x>| <= 3\n',
 }
+# inputs on which the constraint verdicts of the original and the re-read spec are compared in addition to fuzzed trees
+EXAMPLE_INPUTS = {"computed_bound": ["1:a", "2:aa", "2:a", "1:aa"], "and_of_or": ["1,1", "1,2", "2,1", "2,2"], "ifexp_operand": ["1,1", "2,2"],
+                  "slice_prefix": ["121", "211", "122"]}
 ALPHABET = ["a", "'", '"', "\\", "\n", "\x00", "é", "€", "\xff", "{", "<"]
 # regex literals that mix escapes with non-ASCII / control characters, each with a word it must match
 REGEX_EXAMPLES = [(r"\d+€", "12€"), (r"[à-ü]+", "àé"), (r"\s\x00", " \x00"), (r"\w\\", "a\\"), (r"é\.", "é."), (r"\d\t€?", "1\t"),
@@ -73,6 +76,8 @@ def roundtrip_grammar(spec_text):
     g, cs = parse(spec_text, use_stdlib=False, use_cache=False)
     printed = repr(g) + "\n"
     for c in cs:
+        if type(c).__name__ == "RepetitionBoundsConstraint":
+            continue            # not a `where` line of the source: it comes with the computed repetition in the grammar
         line = c.format_as_spec()
         # soft constraints print their own keyword (`minimizing ...` / `maximizing ...`); hard constraints are `where` lines
         printed += (line if line.startswith(("minimizing ", "maximizing ")) else "where " + line) + "\n"
@@ -132,6 +137,31 @@ def run(tier="quick", seed=0, pid="C15"):
         if len(cs) != len(cs2):
             report(name, "constraint_count_changed", f"{len(cs)} constraints printed, {len(cs2)} read back", text)
         elif cs:
+            for w in EXAMPLE_INPUTS.get(name, []):
+                evaluations += 1
+                try:
+                    t1, t2 = g.parse(w), g2.parse(w)
+                except Exception:
+                    continue
+                if (t1 is None) != (t2 is None):
+                    report(name, "language_changed", f"input {w!r}: accepted by the original grammar: {t1 is not None}, by the re-read one: {t2 is not None}", text)
+                    break
+                if t1 is None:
+                    continue
+
+                def verdicts(constraints, tree):
+                    out = []
+                    for c in constraints:
+                        try:
+                            out.append(bool(c.check(tree)))
+                        except Exception as e:
+                            out.append("raises " + type(e).__name__)
+                    return out
+
+                v1, v2 = verdicts(cs, t1), verdicts(cs2, t2)
+                if v1 != v2:
+                    report(name, "constraint_verdict_changed", f"on {w!r}: {v1} before, {v2} after the round trip; printed {printed!r}", text)
+                    break
             for sd in range(8 if tier == "quick" else 40):
                 random.seed(rnd.randint(0, 10 ** 9))
                 t = g.fuzz()
